@@ -3,21 +3,23 @@ package rules
 // decidesExtra: sentences appended to Spec.Decides for the rules added after the third round of
 // seeded changes (kept apart from the specs so that each addition is visible as such).
 var decidesExtra = map[string]string{
-	"C01": " No blob reader is consumed up to a byte count (io.CopyN and the like); inline data of a descriptor reaches module code only through GetData.",
-	"C02": " The bytes given to manifest.WithRaw are never the result of a rewriting function; a body the constructor refused is not handed to it again.",
-	"C03": " The layout answers a head request only after looking at the blob file; what was learned about one repository's referrers API is keyed by that repository.",
-	"C04": " Index entries of manifest type are copied as manifests: the copy's media-type switch agrees with import and export.",
-	"C05": " The reader BlobCopy hands to BlobPut can seek.",
-	"C06": " An index entry is removed only under an exact comparison of its own annotation (or digest) with what was asked for, and is never matched by an empty tag; every origin of the digest the tag-delete fallback deletes is the placeholder.",
-	"C07": " A temp file is created in the directory of its final name.",
-	"C08": " An index entry is marked before the collector tries to load it; temp files are created where the sweep looks.",
+	"C01": " No blob reader is consumed up to a byte count (io.CopyN and the like); inline data of a descriptor reaches module code only through GetData. The limit reader reports an end of stream only when its source did (or behind the limit test); a deferred clean-up does not replace the error the body returned.",
+	"C02": " The bytes given to manifest.WithRaw are never the result of a rewriting function; a body the constructor refused is not handed to it again. The manifest cache never stores a manifest rebuilt from a struct; a digest pinned in the reference is not overridden by a response header.",
+	"C03": " The layout answers a head request only after looking at the blob file; what was learned about one repository's referrers API is keyed by that repository. A caller that finds content in flight is told it is there only after the first copier has finished; filtered referrer listings are not cached under the subject; the tag listing ends only on the limit, an error, or a page without a next link.",
+	"C04": " Index entries of manifest type are copied as manifests: the copy's media-type switch agrees with import and export. The barrier never replaces a collected failure by a later completion unless that completion is itself a failure; a Close with a cancelled context after an interrupted copy cannot sweep what other tags need.",
+	"C05": " The reader BlobCopy hands to BlobPut can seek. The layout upload writes into a CreateTemp file; a connection reset in an upload session is retried on the registry.",
+	"C06": " An index entry is removed only under an exact comparison of its own annotation (or digest) with what was asked for, and is never matched by an empty tag; every origin of the digest the tag-delete fallback deletes is the placeholder. The layout's sweep runs under the mutex that every writer of the index takes.",
+	"C07": " A temp file is created in the directory of its final name. The index reader never refuses an index it has parsed while the updater replaces unreadable ones; a manifest is not published into a layout while a blob it shares is in flight.",
+	"C08": " An index entry is marked before the collector tries to load it; temp files are created where the sweep looks. Nothing a loader calls whose failure the mark phase passes over consults the context.",
 	"C09": " A layout target keeps blob-typed index entries across Close.",
-	"C10": " Every access to a struct-keyed cache of scheme/reg builds its key with the same fields.",
-	"C11": " No code outside package config stores TLSDisabled into a host entry.",
-	"C12": " The blob GET declares the expected length so that a truncated body is resumed.",
+	"C10": " Every access to a struct-keyed cache of scheme/reg builds its key with the same fields. A filtered query builds its answer in fresh storage; every ReferrerList call of the client is answered by a scheme call made by that very call.",
+	"C11": " No code outside package config stores TLSDisabled into a host entry. The existence test of BlobCopy does not offer the target's login to the hosts named in a layer's external URLs.",
+	"C12": " The blob GET declares the expected length so that a truncated body is resumed. A transport failure is retried on the same host after the backoff.",
 	"C13": " A push by digest into a layout cannot replace the untagged entries of other images.",
-	"C14": " The target is asked before the source manifest is fetched, on every path; the layout resolves the target tag exactly.",
-	"C16": " A platform parsed from a request is handed on, not dropped.",
-	"C17": " No function of scheme/reg sends another request while a response it obtained is still open.",
+	"C14": " The target is asked before the source manifest is fetched, on every path; the layout resolves the target tag exactly. The layout's existence tests follow links as its reads do.",
+	"C16": " A platform parsed from a request is handed on, not dropped. A value remembered by a per-image step does not depend on the image it was computed for.",
+	"C17": " No function of scheme/reg sends another request while a response it obtained is still open. A sync.Map of queues is only filled with LoadOrStore.",
 	"C20": " A layout directory is only ever put into a reference by the reference parsers.",
+	"C18": " The layout resolves a tag exactly before any loose match.",
+	"C19": " Nothing but the flag binding writes the dry-run option; the runner never asserts the type of a script-controlled value without the comma-ok form.",
 }
